@@ -1,4 +1,4 @@
--- PINNED by bin/pin_tables: copy of Gen/Dispatch.lean as generated from /repo at d15e01d — regenerate, do not edit
+-- PINNED by bin/pin_tables: copy of Gen/Dispatch.lean as generated from /repo at ae0eb84 — regenerate, do not edit
 namespace Ggql.Pinned
 def dispatchOrder : List String := ["resolver", "any", "reflect"]
 def opFallbackAnyName : Bool := false
@@ -30,6 +30,7 @@ def objectUnchecked : Bool := false
 def argsInPlace : Bool := false
 def argsSortedOnce : Bool := false
 def condByIdentity : Bool := false
+def anonAmongOthers : Bool := false
 def reflectOptionalRefused : Bool := false
 def inputDefaultsRaw : Bool := true
 def listNotCoerced : Bool := false
